@@ -54,6 +54,9 @@ pub struct Ghost {
     /// terms in which a leader was elected by a node matching the S3 history precondition
     pub tainted_terms: BTreeSet<u64>,
     pub tainted_nodes: BTreeSet<NodeId>,
+    /// terms won by a node whose own log held >= 2 membership entries beyond its applied index (its active
+    /// configuration was at least two changes behind its log when it campaigned)
+    pub stale_conf_elections: BTreeSet<u64>,
     /// (term, highest index) each node has acknowledged in a released MsgAppendResponse of that term
     pub acked: BTreeMap<NodeId, (u64, u64)>,
     /// highest index a node acknowledged per term: (node, term) -> index
@@ -84,6 +87,7 @@ impl Ghost {
             proposals: BTreeSet::new(),
             tainted_terms: BTreeSet::new(),
             tainted_nodes: BTreeSet::new(),
+            stale_conf_elections: BTreeSet::new(),
             acked: BTreeMap::new(),
             acked_in_term: BTreeMap::new(),
             read_forward_seen: BTreeSet::new(),
